@@ -139,6 +139,11 @@ fn nested_eval_source() -> BoxedStrategy<String> {
         "{{ 1 // 0 }}",
         "{{ nosuch() }}",
         "text",
+        // loops that end long before their iterable does
+        "{% for q in range(60) %}{% if q == 2 %}{% break %}{% endif %}x{% endfor %}",
+        "{% for q in range(40) %}{{ 6 // (3 - q) }}{% endfor %}",
+        "{% for q in range(30) %}{% for r in range(30) %}{% if r %}{% break %}{% endif %}{% endfor %}{% if q > 1 %}{% break %}{% endif %}{% endfor %}",
+        "{% for q in l * 20 %}{% if loop.index > 1 %}{{ nosuch() }}{% endif %}{% endfor %}",
         // the host re-enters the engine (same render, same budget)
         "{{ host_render_block('a') }}",
         "{% for q in l %}{{ host_render_block('a') }}{% endfor %}",
